@@ -86,6 +86,9 @@ func BuildIntake(r IntakeReq, kt KeyType, base protocol.Protocol, variant int) (
 		return SHA256
 	}
 	mal := func(field, v string) string {
+		if r.HashAlg.Class == "respelled" && r.HashAlg.Field == field {
+			return Respell(v, variant)
+		}
 		if r.HashAlg.Class == "malformed" && r.HashAlg.Field == field {
 			return []string{"***not-base64***", "AAAA", "EiA", base64.RawURLEncoding.EncodeToString([]byte("not a multihash at all"))}[variant%4]
 		}
@@ -152,6 +155,16 @@ func BuildIntake(r IntakeReq, kt KeyType, base protocol.Protocol, variant int) (
 		}
 	case "ucEqRc":
 		uc = rc
+	case "selfCommitRespelled": // the commitment of the revealed key in another base64url spelling of the same bytes
+		if r.Ty == "U" {
+			uc = Respell(commit(jwk, SHA256), variant)
+		} else {
+			rc = Respell(commit(jwk, SHA256), variant)
+		}
+	case "ucEqRcRespelled":
+		uc = Respell(rc, variant)
+	case "recoverUcIsRevealedKey": // the next UPDATE commitment is the commitment of the recovery key being revealed
+		uc = commit(jwk, SHA256)
 	}
 	uc = mal("updateCommitment", uc)
 	delta := &model.DeltaModel{UpdateCommitment: uc, Patches: patches}
@@ -206,6 +219,9 @@ func BuildIntake(r IntakeReq, kt KeyType, base protocol.Protocol, variant int) (
 		return c
 	}
 	suffix := "EiDahaOGH-liLLdDtTxEAdc8i-cfCz-WUcQdRJheMVNn3A"
+	if r.Dsfx == "tooLong" { // one character beyond the maximum hash length (the limit the batch file reader applies)
+		suffix = suffix + strings.Repeat("A", int(p.MaxOperationHashLength)+1-len(suffix))
+	}
 	var reqObj interface{}
 	switch r.Ty {
 	case "C":
@@ -248,6 +264,9 @@ func BuildIntake(r IntakeReq, kt KeyType, base protocol.Protocol, variant int) (
 		p.MaxOperationSize = uint(L)
 	case "over":
 		p.MaxOperationSize = uint(L - 1)
+	case "overByWhitespace":
+		p.MaxOperationSize = uint(L)
+		req = [][]byte{append(append([]byte{}, req...), '\n'), append([]byte(" "), req...), append(append([]byte("\t"), req...), ' ', ' '), append(append([]byte{}, req...), '\r', '\n')}[variant%4]
 	}
 	if r.Ty != "D" && r.Missing != "delta" {
 		Ld := len(canon(delta))
@@ -302,4 +321,21 @@ func hashStrings(m map[string]interface{}) []string {
 		}
 	}
 	return out
+}
+
+// Respell returns another base64url spelling that the lenient decoder maps to the same bytes: the unused trailing bits of
+// the last character set (variant even) or a line break inserted / appended (variant odd).
+func Respell(s string, variant int) string {
+	const abc = "ABCDEFGHIJKLMNOPQRSTUVWXYZabcdefghijklmnopqrstuvwxyz0123456789-_"
+	if variant%2 == 1 || len(s)%4 == 0 || len(s) == 0 {
+		if variant%4 == 1 {
+			return s + "\n"
+		}
+		return s[:len(s)/2] + "\r\n" + s[len(s)/2:]
+	}
+	i := strings.IndexByte(abc, s[len(s)-1])
+	if i < 0 {
+		return s + "\n"
+	}
+	return s[:len(s)-1] + string(abc[i^1])
 }
